@@ -38,6 +38,7 @@ type scriptObs struct {
 	text                 string
 	decOK, parseOK       bool
 	decPanic, parsePanic bool
+	eocsOK, eocsPanic    bool
 	parts                [][]byte
 	ops                  interpreter.ParsedScript
 	unparseOK            bool
@@ -248,11 +249,13 @@ func observe(s []byte) *scriptObs {
 		var e error
 		p2 := interpreter.DefaultOpcodeParser{ErrorOnCheckSig: true}
 		if p, msg := common.Safely(func() { _, e = p2.Parse(scr()) }); p {
+			o.eocsPanic = true
 			note("Parse(ErrorOnCheckSig)", msg)
 			sb.WriteString(";C!")
 		} else if e != nil {
 			sb.WriteString(";C-")
 		} else {
+			o.eocsOK = true
 			sb.WriteString(";C+")
 		}
 	}
@@ -377,6 +380,8 @@ func predicates(s []byte, o *scriptObs) {
 	if !o.jsonOK || !bytes.Equal(o.jsonBack, s) {
 		c.Violate("Script/json-roundtrip", "json.Unmarshal(json.Marshal(s)) != s", in)
 	}
+	// the parse is the one the grammar prescribes: tokens, conditional depth, early end at a top-level OP_RETURN (conddepth.go)
+	grammarPredicates(s, o)
 	if !o.decPanic && !o.parsePanic && !sg.HasOpReturn(s) {
 		if o.decOK != o.parseOK {
 			c.Violate("DecodeParts/Parse-disagree", fmt.Sprintf("DecodeParts ok=%v, Parse ok=%v on a script without OP_RETURN", o.decOK, o.parseOK), in)
@@ -728,6 +733,23 @@ func main() {
 	for _, h := range []string{"6a", "6a01", "6a0102", "6a4c", "6a4cff01", "006a", "006a4c05", "636a0102", "636a01026851", "636a68", "63686a4c", "686a4c", "68636a4c0a", "516a", "0151", "01ac", "ac", "b2", "6aac", "6a6a6a"} {
 		scriptCase("op-return-shape", common.Unhex(h))
 	}
+	// which opcodes move the conditional depth x OP_RETURN x tails that are not a push sequence (conddepth.go)
+	c.PerShard = 700
+	if c.Thorough() || search {
+		condDepthFamily(4, 3)
+	} else {
+		condDepthFamily(3, 2)
+	}
+	c.PerShard = 150
+	condDepthRandom(r, map[bool]int{false: 200, true: 8000}[c.Thorough() || search])
+	c.PerShard = 8
+	longTails(r, []int{2, 75, 76, 255, 256})
+	if c.Thorough() {
+		c.PerShard = 1
+		longTails(r, []int{65535, 65536})
+	}
+	reusedParserDepth()
+	c.PerShard = 150
 	// data scripts (OP_RETURN / OP_FALSE OP_RETURN first) whose pushes are printed as numbers up to 4 bytes and as hex
 	// beyond, with every combination of two complete pushes of 0..5 bytes (all push forms) before a last push, cut at
 	// every position: the cut must show in every decoder whatever was printed before it
@@ -836,7 +858,7 @@ func main() {
 		hexCase("random", h)
 	}
 
-	c.Stats.Rule = "(1) every byte string of length <= 2 run through DecodeParts, Parse (with and without ErrorOnCheckSig), Unparse, ToASM, NewFromASM, hex and JSON on the Go side (65 793; <= 3 bytes in thorough, Go-level predicates only), the model evaluated on all of length <= 1 plus the seed-chosen residue class mod 8 of the 2-byte ones in quick and on all in thorough; (2) EncodeParts/PushDataPrefix/MinPushSize on item lists with lengths 0,1,2,3,74..77,254..257,65535,65536 and random mixes; (3) every push form x every boundary length complete, cut by one byte, cut to the header, cut to one byte, hostile 32-bit lengths, declared lengths at the top of each length field's range (250..255, 0xfffa..0xffff, 0xfffffff9..0xffffffff, 2^31 +- few) with 0/1/3/100 bytes present, zero-length pushes; (4) grammar-generated scripts (non-push opcodes, pushes of all forms incl. non-minimal) with OP_RETURN at top level / inside IF / after a stray ENDIF, truncated at every position, fixed OP_RETURN shapes, random bytes; (5) ASM round trip on generated domain scripts and every non-push opcode, NewFromASM / NewFromHexString / UnmarshalJSON on arbitrary token strings. distinct = distinct input bytes / item-length vector / string; non-trivial = non-empty input"
+	c.Stats.Rule = "(1) every byte string of length <= 2 run through DecodeParts, Parse (with and without ErrorOnCheckSig), Unparse, ToASM, NewFromASM, hex and JSON on the Go side (65 793; <= 3 bytes in thorough, Go-level predicates only), the model evaluated on all of length <= 1 plus the seed-chosen residue class mod 8 of the 2-byte ones in quick and on all in thorough; (2) EncodeParts/PushDataPrefix/MinPushSize on item lists with lengths 0,1,2,3,74..77,254..257,65535,65536 and random mixes; (3) every push form x every boundary length complete, cut by one byte, cut to the header, cut to one byte, hostile 32-bit lengths, declared lengths at the top of each length field's range (250..255, 0xfffa..0xffff, 0xfffffff9..0xffffffff, 2^31 +- few) with 0/1/3/100 bytes present, zero-length pushes; (4) grammar-generated scripts (non-push opcodes, pushes of all forms incl. non-minimal) with OP_RETURN at top level / inside IF / after a stray ENDIF, truncated at every position, fixed OP_RETURN shapes, random bytes; (4b) conditional depth: every sequence of up to 3 (thorough: 4) tokens from {IF, NOTIF, VERIF, VERNOTIF, ELSE, ENDIF, NOP, VER, VERIFY, RETURN, push of 63, push of 68 6a} followed by OP_RETURN and each of 12 tails (empty, direct / PUSHDATA1 / 2 / 4 headers without their data, a complete push, ENDIF, ENDIF + truncated push, ENDIF RETURN + truncated push, CHECKSIG, CHECKSIG + truncated push) - Go side all, model side all with up to 2 (3) prefix tokens and a seed-chosen sixteenth of the longer ones; random conditional-heavy token sequences + OP_RETURN + random bytes ending in an incomplete push; unformatted tails of 2..256 bytes (65535 / 65536 in thorough); every parse (this family and all others) compared on the Go side with an independent statement of the parser's grammar (tokens, depth moved by IF / NOTIF / ENDIF only, early end at a depth-0 OP_RETURN, ErrorOnCheckSig only at opcode positions); (5) ASM round trip on generated domain scripts and every non-push opcode, NewFromASM / NewFromHexString / UnmarshalJSON on arbitrary token strings. distinct = distinct input bytes / item-length vector / string; non-trivial = non-empty input"
 	checkStream()
 	c.Finish()
 }
